@@ -6,7 +6,7 @@ CaseResult runC06(const Case &c, RunCtx &ctx) {
     CaseResult r;
     Interp in(ctx, "C06");
     in.allowUndeclaredFrames = true;      // the frame list semantics hold for every data set, also one without declarations
-    FrameModelListener L(r, false); in.L = &L;
+    FrameModelListener L(r, false); L.requireAcceptance = true; in.L = &L;
     in.run(c);
     r.nontrivial = (L.indexed && in.o().data().nbFrames() >= 2) || L.columns;
     if (L.indexed) r.tags.insert("indexed"); if (L.columns) r.tags.insert("column"); if (L.appends) r.tags.insert("append");
